@@ -355,15 +355,28 @@ def gen_std_modules():
     empty_caps_skip = bool(re.search(r"!\s*policy\.capabilities\.is_empty\(\)", b_dyn))
     # every policy component (capabilities, checksum, required_version) must be looked up under the SAME key
     def lookup_keys(body, what):
-        keys = [re.sub(r"[&\s]", "", k) for k in re.findall(r"\.\s*module\s*\(\s*([^()]*?)\s*\)", body)]
+        keys = [re.sub(r"[&\s]", "", k) for k in re.findall(r"(?:\.\s*module|\bnative_policy)\s*\(\s*([^()]*?)\s*\)", body)]
         if not keys:
             raise ExtractError(f"{what}: no manifest policy lookup found")
         return keys
     keys_dyn = lookup_keys(b_dyn, "native_load.rs::load_native_module")
     keys_emb = lookup_keys(fn_body(run, "load_bundled_module", "cli run.rs"), "cli run.rs::load_bundled_module")
     # the key of the dynamic route must be the last path segment (how [module.NAME] entries are keyed)
-    kd = keys_dyn[0]
+    kd = keys_dyn[0].split(",")[-1]
     last_seg = bool(re.search(r"let\s+" + re.escape(kd) + r"\s*=\s*needs\s*\.\s*path\s*\.\s*last\(\)", b_dyn))
+    # does the policy lookup try the dotted import path (the resolver's key) before the last segment?
+    try:
+        hp = fn_body(nl, "native_policy", "native_load.rs")
+        dotted_first = bool(re.search(r"\.module\(\s*module_path_str\s*\)\s*\.or_else\(\s*\|\|\s*[a-z_]+\.module\(\s*module_name\s*\)\s*\)", re.sub(r"\s+", "", hp).replace(".module(", ".module(").replace("||", "||")) or
+                            (".module(module_path_str)" in re.sub(r"\s+", "", hp) and ".or_else(" in hp and ".module(module_name)" in re.sub(r"\s+", "", hp)))
+    except ExtractError:
+        dotted_first = False
+    # an existing manifest that cannot be read must stop native modules
+    ini_all = strip_comments(rd("driver/src/modules/loader/init.rs"))
+    unparsable_err = "find_for_source_file" in ini_all and "manifest_error" in b_dyn
+    # the std capability bits govern native-module capabilities of the same name
+    std_bits = all(re.search(r"\"" + n + r"\"\s*=>\s*Some\(\s*self\.capabilities\.allow_" + n + r"\s*\)", cn) for n in ("fs", "net", "exec")) \
+        and bool(re.search(r"==\s*Some\(false\)\s*\{\s*return\s+Err", cn)) and cn.find("Some(false)") < cn.find("self.denied_caps.contains")
     # which manifest each route passes
     aasm = fn_body(run, "run_aasm_file", "cli run.rs")
     m_aasm = re.search(r"load_required_modules\(\s*&mut vm\s*,\s*path\s*,\s*src\s*,\s*&required_modules\s*,\s*([A-Za-z_.()]+)", aasm)
@@ -373,18 +386,18 @@ def gen_std_modules():
         raise ExtractError("cli run.rs: load_required_modules call not found in run_aasm_file/run_avbc_file")
     aasm_none = m_aasm.group(1) == "None"
     var = m_aasm.group(1).split(".")[0]
-    aasm_project = (not aasm_none) and bool(re.search(r"let\s+" + re.escape(var) + r"\s*=\s*Manifest::for_source_file\(\s*path\s*\)\s*;", aasm))
+    aasm_project = (not aasm_none) and bool(re.search(r"let\s+" + re.escape(var) + r"\s*=\s*Manifest::(?:find_)?for_source_file\(\s*path\s*\)[^;]*;", aasm))
     if not aasm_none and not aasm_project:
         raise ExtractError("cli run.rs::run_aasm_file: manifest argument of unexpected shape")
     if "deserialize_with_manifest" not in avbc or m_avbc.group(1) == "None":
         raise ExtractError("cli run.rs::run_avbc_file: manifest argument of unexpected shape")
-    avbc_fallback = bool(re.search(r"None\s*=>\s*Manifest::for_source_file\(\s*path\s*\)|\.or_else\(\s*\|\|\s*Manifest::for_source_file\(\s*path\s*\)\s*\)", avbc))
+    avbc_fallback = bool(re.search(r"None\s*=>\s*Manifest::(?:find_)?for_source_file\(\s*path\s*\)|\.or_else\(\s*\|\|\s*Manifest::(?:find_)?for_source_file\(\s*path\s*\)\s*\)", avbc))
     avbc_embedded = not avbc_fallback and "for_source_file" not in avbc
     ini = strip_comments(rd("driver/src/modules/loader/init.rs"))
-    source_project = bool(re.search(r"manifest\s*:\s*Manifest::for_source_file\(entry_file\)", fn_body(ini, "new", "loader/init.rs")))
+    source_project = bool(re.search(r"Manifest::(?:find_)?for_source_file\(\s*entry_file\s*\)", fn_body(ini, "new", "loader/init.rs")))
     # manifest discovery: the per-file manifest is `<file name>.toml` (whatever the extension of the entry file), then aelys.toml
     man = strip_comments(rd("modules/src/manifest.rs"))
-    fsf = fn_body(man, "for_source_file", "manifest.rs")
+    fsf = closure_body(man, "for_source_file")
     per_file_ok = bool(re.search(r"file_name\(\)", fsf) and re.search(r"format!\(\s*\"\{\}\.toml\"\s*,\s*[a-z_]+\s*\)", fsf)
                        and re.search(r"set_file_name\s*\(|with_file_name\s*\(", fsf) and "with_extension" not in fsf)
     dir_ok = bool(re.search(r"join\(\s*\"aelys\.toml\"\s*\)", fsf))
@@ -446,6 +459,10 @@ def gen_std_modules():
     out.append(f"Definition dynamic_policy_lookup_keys : list string := {coq_list(q(x) for x in keys_dyn)}.\n")
     out.append(f"Definition embedded_policy_lookup_keys : list string := {coq_list(q(x) for x in keys_emb)}.\n")
     out.append(f"Definition dynamic_policy_key_is_last_segment : bool := {b(last_seg)}.\n")
+    out.append("(* repairs of round 4 (false on a tree that does not have them yet) *)\n")
+    out.append(f"Definition policy_lookup_tries_dotted_path : bool := {b(dotted_first)}.\n")
+    out.append(f"Definition unparsable_manifest_is_an_error : bool := {b(unparsable_err)}.\n")
+    out.append(f"Definition native_caps_consult_std_bits : bool := {b(std_bits)}.\n")
     out.append(f"Definition empty_capability_list_skips_check : bool := {b(empty_caps_skip)}.\n")
     out.append(f"Definition source_route_uses_project_manifest : bool := {b(source_project)}.\n")
     out.append(f"Definition avbc_route_uses_embedded_manifest_only : bool := {b(avbc_embedded)}.\n")
